@@ -200,8 +200,8 @@ pub fn check(rep: &Report) {
     let items: Vec<crate::corpus::Item> = crate::corpus::load("/repo").into_iter().filter(|i| i.origin.starts_with("tests/") || i.origin.starts_with("docs") || i.origin.starts_with("std")).collect();
     rep.extra("corpus_programs", json!(items.len()));
     let n_mut = if quick { 12_000 } else { 200_000 };
-    let n_gen = if quick { 30_000 } else { 600_000 };
-    let n_ill = if quick { 20_000 } else { 400_000 };
+    let n_gen = if quick { 80_000 } else { 600_000 };
+    let n_ill = if quick { 50_000 } else { 400_000 };
     let n_scen = if quick { 1_500 } else { 30_000 };
     let total = items.len() + n_mut + n_gen + n_ill + n_scen;
     let watch = crate::pool::Watch::new("C01", 30);
